@@ -126,6 +126,7 @@ struct Render {
     /// (byte position in `text`, live) right behind every unterminated operand
     unterminated: Vec<(usize, bool)>,
     space_ended: bool,
+    expandafter_terminated: bool,
     mac_operand_live: bool,
     blank_before_relation: bool,
     /// \ifcase selecting case >= 1 with a nested \ifcase in an earlier (skipped) case
@@ -308,6 +309,13 @@ impl Render {
                 self.space_ended |= live;
             }
             _ => {
+                if term == 3 {
+                    // the number scanner expands \expandafter, which expands the token after \relax once
+                    // (this conditional's own \else / \or / \fi stays put, TeX.2021.510); the number then
+                    // ends at the \relax. For what follows this is the unterminated case.
+                    self.text.push_str("\\expandafter\\relax ");
+                    self.expandafter_terminated |= live;
+                }
                 self.unterminated.push((self.text.len(), live));
                 if live && !branch0 {
                     self.false_after.push(self.text.len());
@@ -640,6 +648,7 @@ pub fn build_cond(c: &CondCase, dev: Deviations) -> BuiltCond {
         class_if(!eof && !cond && *live, "evaluated operand ended by branch text");
     }
     class_if(r.space_ended, "evaluated operand ended by a space");
+    class_if(r.expandafter_terminated, "evaluated operand ended by \\expandafter\\relax (token behind it expanded once during the scan)");
     class_if(r.mac_operand_live, "evaluated operand produced by a macro");
     class_if(r.blank_before_relation, "blank space from macros before the relation");
     class_if(r.macro_spelling_live, "if/else/or/fi delivered by a macro");
@@ -692,7 +701,7 @@ fn alias_strategy() -> impl Strategy<Value = u8> {
 fn spelling_strategy() -> impl Strategy<Value = ((u8, u8, u8, u8), u8, u8)> {
     (
         (alias_strategy(), alias_strategy(), alias_strategy(), alias_strategy()),
-        prop_oneof![3 => Just(0u8), 2 => Just(1u8), 5 => Just(2u8)],
+        prop_oneof![3 => Just(0u8), 2 => Just(1u8), 5 => Just(2u8), 1 => Just(3u8)],
         prop_oneof![8 => Just(0u8), 1 => Just(1u8), 1 => Just(2u8)],
     )
 }
